@@ -81,7 +81,9 @@ def run(check: Check) -> None:
         # V1 elementwise safety of this kernel
         if c02.kernel_elementwise(check, fn, "V1", f"{name}.membership"):
             continue  # a decision taken for the whole batch: the kernel is not the elementwise expression the interpreters assume
-        t = return_term(p, c, "membership")
+        from ..ordertype import flatten
+
+        t = flatten(p, return_term(p, c, "membership"))  # nested term constructions and the library's one-line helpers (Op.is_close, ...) inlined
         xname = fn.params[1].name
         # A1
         def env(term: Term, xname=xname):
